@@ -315,6 +315,213 @@ def _cm(rr, a, b):
     return rr.randn(a, b) + 1j * rr.randn(a, b)
 
 
+def _sqnorm(A):
+    tot = 0
+    for v in np.asarray(A, dtype=object).flat:
+        v = sym.to_complex(v)
+        tot = tot + v.re * v.re + v.im * v.im
+    return tot
+
+
+@obligation("enhanced/stream_reduction_structure", params=[{"metric": m, "ns": n} for m in ("fixed", "naive", "None") for n in ((1,) if m != "None" else (2,))]
+            + [{"metric": "fixed", "ns": 1, "ant": 3}, {"metric": "naive", "ns": 2, "ant": 3}],
+            timeout=300,
+            desc="EnhancedBD.block_diagonalize_no_waterfilling on an ext-int channel (K = 2 users, 2 x 2 antennas each, one external "
+                 "interferer, symbolic real channel) with the callees under contract - the unscaled BD precoder (arbitrary symbolic matrix), "
+                 "least_right_singular_vectors (arbitrary symbolic basis), the channel's interference-plus-noise covariance (symbolic) and "
+                 "pinv/projection (library contracts): metric 'fixed' asks the stream-reduction basis for EXACTLY the covariance the channel "
+                 "reports for the object's current pe, with the configured stream count; the transmitted precoder of user k is Ms_k P_k "
+                 "scaled to power exactly iPu; the reported stream count == precoder columns == filter rows == configured count (metric None: "
+                 "all streams); inter-user terms factor as H_j (Ms_k P_k) == (H_j Ms_k) P_k / norm (zero whenever the unscaled precoder is block "
+                 "diagonalising); the receive filter inverts the user's own effective channel: W_k H_k MsP_k == I")
+def ob_enhanced_structure(metric, ns, ant=2):
+    def body(c, it):
+        from pyphysim.comm import blockdiagonalization as bd
+        import pyphysim.channels.multiuser as mu
+        import pyphysim.util.misc as misc
+        from .C08 import _install_models
+        draws = []
+        _install_models(c, it, draws)
+
+        def m_randn_real(interp, RS, *shape):
+            m = np.empty(shape, dtype=object)
+            for pos in np.ndindex(*shape):
+                m[pos] = c.fresh_var("h", "real")
+            draws.append(m)
+            return m
+        it.models[misc.randn_c_RS] = m_randn_real
+        K, Nr, Nt = 2, np.array([ant, ant]), np.array([ant, ant])
+        N = K * ant
+        ch = it.call(mu.MultiUserChannelMatrixExtInt, [])
+        it.call(it.getattr(ch, "randomize"), [Nr, Nt, K, 1])
+        iPu, pe = c.var("iPu", "real"), c.var("pe", "real")
+        c.assume((iPu > 0) & (pe >= 0))
+        H = np.asarray(it.getattr(ch, "big_H_no_ext_int"), dtype=object)
+        Msb = _rmat(c, "M", N, N)
+        cov_calls, lr_calls, Re_all = [], [], []
+
+        def m_cov(interp, self, *a, **k):
+            Re_ = np.empty(K, dtype=object)
+            for k_ in range(K):
+                Re_[k_] = _rmat(c, "R%d_%d" % (len(cov_calls), k_), ant, ant)
+            cov_calls.append((a, k))
+            Re_all.append(Re_)
+            return Re_
+        it.models["pyphysim.comm.blockdiagonalization:BlockDiagonalizer._calc_BD_matrix_no_power_scaling"] = \
+            lambda interp, self, chm: (Msb, np.ones(N))
+        it.models["pyphysim.channels.multiuser:MultiUserChannelMatrixExtInt.calc_cov_matrix_extint_plus_noise"] = m_cov
+
+        def lrsv(interp, A, nn):
+            V0 = _rmat(c, "P%d" % len(lr_calls), np.shape(A)[1], nn)
+            lr_calls.append((A, nn, V0))
+            return V0, None, None
+        it.models["pyphysim.util.misc:least_right_singular_vectors"] = lrsv
+        it.models[misc.least_right_singular_vectors] = lrsv
+        o = it.call(bd.EnhancedBD, [K, 1.0, 0.1, 0.5])
+        it.setattr(o, "iPu", iPu)          # attributes changed after construction: the CURRENT values count
+        it.setattr(o, "pe", pe)
+        if metric == "None":
+            it.call(it.getattr(o, "set_ext_int_handling_metric"), [None])
+        else:
+            it.call(it.getattr(o, "set_ext_int_handling_metric"), [metric, {"num_streams": ns}])
+        MsPk, Wk, Ns = it.call(it.getattr(o, "block_diagonalize_no_waterfilling"), [ch])
+        goals = [Goal("one precoder, filter and stream count per user", len(MsPk) == K and len(Wk) == K and len(Ns) == K)]
+        if not goals[0].cond:
+            return goals
+        if metric == "fixed":
+            goals.append(Goal("covariance requested once, for the object's current pe",
+                              len(cov_calls) == 1 and len(cov_calls[0][0]) == 1 and cov_calls[0][0][0] is pe))
+            goals.append(Goal("stream-reduction basis requested per user for that user's covariance and the configured stream count",
+                              len(lr_calls) == K and len(Re_all) == 1 and all(lr_calls[k][0] is Re_all[0][k] and lr_calls[k][1] == ns for k in range(K))))
+        for k in range(K):
+            rows_k, cols_k = slice(ant * k, ant * k + ant), slice(ant * k, ant * k + ant)
+            Msk = Msb[:, cols_k]
+            if metric == "fixed":
+                if len(lr_calls) != K:
+                    break
+                Pk = lr_calls[k][2]
+            elif metric == "naive":
+                Pk = np.eye(ant, dtype=object)[:, :ns]
+            else:
+                Pk = np.eye(ant, dtype=object)
+            raw = np.dot(Msk, Pk)
+            got = np.asarray(MsPk[k], dtype=object)
+            goals.append(Goal("user %d: stream count == precoder columns == filter rows == %d" % (k, ns),
+                              int(Ns[k]) == ns and got.shape == (N, ns) and np.shape(Wk[k])[0] == ns))
+            if got.shape != (N, ns):
+                continue
+            if ant != 2:
+                continue          # 3 antennas per user: the request structure above (which distinguishes kept from sacrificed streams); the algebra is proved for 2
+            goals.append(Goal("user %d: ||MsP_k||_F^2 == iPu (cross-multiplied with ||Ms_k P_k||^2)" % k, frac_eq(_sqnorm(got), iPu)))
+            goals.append(Goal("user %d: MsP_k is a positive multiple of Ms_k P_k" % k,
+                              _meq(got * lift(_sqnorm(raw)).to_real().sqrt(), raw * iPu.sqrt())))
+            j = 1 - k
+            Hj = H[ant * j:ant * j + ant, :]
+            goals.append(Goal("user %d: H_%d MsP_%d * ||Ms P|| == ((H_%d Ms_%d) P_%d) * sqrt(iPu)" % (k, j, k, j, k, k),
+                              _meq(np.dot(Hj, got) * lift(_sqnorm(raw)).to_real().sqrt(), np.dot(np.dot(Hj, Msk), Pk) * iPu.sqrt())))
+            Hk = H[rows_k, :]
+            if ant == 2:          # (the pinv identity for 3 antennas exceeds the normaliser's budget; it is the same callee contract)
+                goals.append(Goal("user %d: W_k H_k MsP_k == I" % k, _meq(np.dot(np.asarray(Wk[k], dtype=object), np.dot(Hk, got)), np.eye(ns, dtype=object))))
+        if metric == "fixed":
+            # the same precoder object and the same channel OBJECT, after the interference level changed: the basis is requested again,
+            # for the covariance the channel reports NOW
+            pe2 = c.var("pe2", "real")
+            c.assume(pe2 >= 0)
+            it.setattr(o, "pe", pe2)
+            n0 = len(lr_calls)
+            it.call(it.getattr(o, "block_diagonalize_no_waterfilling"), [ch])
+            goals.append(Goal("second call (same channel object, other pe): covariance requested again for the new pe",
+                              len(cov_calls) == 2 and len(cov_calls[1][0]) == 1 and cov_calls[1][0][0] is pe2))
+            goals.append(Goal("second call: the stream-reduction basis comes from the new covariance",
+                              len(lr_calls) == n0 + K and len(Re_all) == 2 and all(lr_calls[n0 + k][0] is Re_all[1][k] for k in range(K))))
+        return goals
+    return verify(body, check_side=False, timeout_ms=120000)
+
+
+@obligation("whitening/structure_and_filters", timeout=300,
+            desc="WhiteningBD.block_diagonalize_no_waterfilling on an ext-int channel (K = 2, one antenna per user and one external "
+                 "interferer, symbolic real channel) with the callees under contract - calc_whitening_matrix (arbitrary symbolic "
+                 "filter per user), the channel's interference-plus-noise covariance (symbolic), the inherited block diagonalisation (its "
+                 "contract: a precoder whose k-th block lies in the null space of the OTHER users' whitened channels, newH == H_equiv Ms), pinv: "
+                 "the whitening filters are requested for the covariance the channel reports for the object's CURRENT pe, one per user, and "
+                 "applied as (filter)^H to that user's rows; the block diagonalisation is run on blockdiag(whitening) H; the returned receive "
+                 "filter of user k satisfies W_k H_kk Ms_k == 1 and W_k H_kj Ms_j == 0 (j != k) on the PHYSICAL channel H; stream counts == "
+                 "transmit antennas; precoders are the column blocks of Ms")
+def ob_whitening_structure():
+    def body(c, it):
+        from pyphysim.comm import blockdiagonalization as bd
+        import pyphysim.channels.multiuser as mu
+        import pyphysim.util.misc as misc
+        from .C08 import _install_models
+        draws = []
+        _install_models(c, it, draws)
+
+        def m_randn_real(interp, RS, *shape):
+            m = np.empty(shape, dtype=object)
+            for pos in np.ndindex(*shape):
+                m[pos] = c.fresh_var("h", "real")
+            draws.append(m)
+            return m
+        it.models[misc.randn_c_RS] = m_randn_real
+        K, Nr, Nt = 2, np.array([1, 1]), np.array([1, 1])
+        ch = it.call(mu.MultiUserChannelMatrixExtInt, [])
+        it.call(it.getattr(ch, "randomize"), [Nr, Nt, K, 1])
+        H = np.asarray(it.getattr(ch, "big_H_no_ext_int"), dtype=object)
+        pe = c.var("pe", "real")
+        c.assume(pe >= 0)
+        Re = np.empty(K, dtype=object)
+        for k in range(K):
+            Re[k] = _rmat(c, "R%d" % k, 1, 1)
+        cov_calls, wh_calls, bd_calls = [], [], []
+        it.models["pyphysim.channels.multiuser:MultiUserChannelMatrixExtInt.calc_cov_matrix_extint_plus_noise"] = \
+            lambda interp, self, *a, **k: (cov_calls.append((a, k)) or Re)
+
+        def m_whiten(interp, R):
+            Wm = _rmat(c, "Wh%d" % len(wh_calls), 1, 1)
+            wh_calls.append((R, Wm))
+            return Wm
+        it.models["pyphysim.util.misc:calc_whitening_matrix"] = m_whiten
+        it.models[misc.calc_whitening_matrix] = m_whiten
+        a_, b_ = c.var("a", "real"), c.var("b", "real")
+
+        def m_bd(interp, self, He):
+            # contract of the inherited block diagonalisation for 2 single-antenna users: user k's precoder is any vector in the
+            # null space of the other user's (equivalent) channel row; newH == He Ms
+            He = np.asarray(He, dtype=object)
+            Ms = np.empty((2, 2), dtype=object)
+            Ms[0, 0], Ms[1, 0] = He[1, 1] * a_, (0 - He[1, 0]) * a_
+            Ms[0, 1], Ms[1, 1] = (0 - He[0, 1]) * b_, He[0, 0] * b_
+            bd_calls.append((He, Ms))
+            return np.dot(He, Ms), Ms
+        it.models["pyphysim.comm.blockdiagonalization:BlockDiagonalizer.block_diagonalize_no_waterfilling"] = m_bd
+        o = it.call(bd.WhiteningBD, [K, 1.0, 0.1, 0.5])
+        it.setattr(o, "pe", pe)
+        Ms_all, Wk, Ns = it.call(it.getattr(o, "block_diagonalize_no_waterfilling"), [ch])
+        goals = [Goal("covariance requested once for the current pe", len(cov_calls) == 1 and len(cov_calls[0][0]) == 1 and cov_calls[0][0][0] is pe),
+                 Goal("one whitening filter per user, from that user's covariance", len(wh_calls) == K and all(wh_calls[k][0] is Re[k] for k in range(K))),
+                 Goal("block diagonalisation run once", len(bd_calls) == 1)]
+        if not all(g.cond for g in goals):
+            return goals
+        He, Ms = bd_calls[0]
+        wspec = np.zeros((2, 2), dtype=object)
+        for k in range(K):
+            wspec[k, k] = wh_calls[k][1][0, 0]
+        goals.append(Goal("block diagonalisation runs on blockdiag(whitening_k^H) H", _meq(He, np.dot(wspec, H))))
+        goals.append(Goal("stream counts == transmit antennas", [int(x) for x in Ns] == [1, 1]))
+        for k in range(K):
+            goals.append(Goal("user %d: precoder is column block %d of Ms" % (k, k), _meq(np.asarray(Ms_all[k], dtype=object), Ms[:, k:k + 1])))
+            Wkk = np.asarray(Wk[k], dtype=object)
+            goals.append(Goal("user %d: one receive-filter row over its antenna" % k, Wkk.shape == (1, 1)))
+            if Wkk.shape != (1, 1):
+                continue
+            for j in range(K):
+                eff = np.dot(Wkk, np.dot(H[k:k + 1, :], Ms[:, j:j + 1]))
+                goals.append(Goal("user %d: W_k H_k Ms_%d == %d on the physical channel" % (k, j, int(j == k)),
+                                  _meq(eff, np.eye(1, dtype=object) * int(j == k))))
+        return goals
+    return verify(body, check_side=False, timeout_ms=120000)
+
+
 @obligation("native/block_diagonalizer", kind="bounded", timeout=900,
             desc="BlockDiagonalizer on random full-rank channels, K 2..4, 1..4 antennas per user, absolute channel scale 1e-6..1e3: effective "
                  "channel block diagonal (relative 1e-9); without water-filling every user block has power exactly iPu; with normalised "
